@@ -249,11 +249,4 @@ def classify(v, case):
     m = v.get("mech") or v["monitor"]
     if m.startswith("silent-wrong-gradient") and v.get("defeated"):
         return "reuse-refills-consumers"
-    has_einsum = any(st.get("fn") == "einsum" for st in case.get("prog", []))
-    if m == "retry-raises:AssertionError" and has_einsum:
-        return "retry-after-refusal-einsum-cache"
-    if m == "final-backward-raises:AssertionError" and has_einsum and v.get("earlier_refusal"):
-        # same mechanism: an EARLIER backward() in the history was (correctly) refused half-way through a graph that shares the
-        # einsum operation with L, leaving that operation's backward cache consumed
-        return "retry-after-refusal-einsum-cache"
     return m
